@@ -117,6 +117,11 @@ def r2_eval(chk, fx):
         ev = p.calls("RpslEvaluator::evaluate")
         fs = A.fields_of(p.ret)
         rg = fs.get("ranges")
+        if any(e[0] == "unwind" for e in p.trace) and rg is not None and p.end != "abort":
+            # the evaluation panicked inside catch_unwind: a failed evaluation like any other
+            seen.setdefault("Panicked", []).append((rg == A.NONE, A.vstr(rg)[:160]))
+            seen.setdefault("fe", []).append(A.vstr(fs.get("filter_expr", ("unit",))).endswith(".filter_expr"))
+            continue
         if kv is None or rg is None or p.end == "abort" or len(ev) != 1:
             seen.setdefault("other", []).append(A.vstr(p.ret)[:160] + " / " + p.end)
             continue
@@ -131,10 +136,11 @@ def r2_eval(chk, fx):
         own = arg is not None and A.vstr(arg).endswith(".filter_expr") and "self" in A.vstr(arg)
         seen.setdefault("own", []).append(own)
         seen.setdefault("fe", []).append(A.vstr(fs.get("filter_expr", ("unit",))).endswith(".filter_expr"))
-    ok = not seen.get("other") and seen.get("Ok") and seen.get("Err") and all(g for g, _ in seen["Ok"]) and all(g for g, _ in seen["Err"])
-    chk.extra["ranges_by_case"] = {k: v for k, v in seen.items() if k in ("Ok", "Err", "other")}
+    ok = not seen.get("other") and seen.get("Ok") and seen.get("Err") and all(g for g, _ in seen["Ok"]) and all(g for g, _ in seen["Err"]) and \
+        all(g for g, _ in seen.get("Panicked", []))
+    chk.extra["ranges_by_case"] = {k: v for k, v in seen.items() if k in ("Ok", "Err", "Panicked", "other")}
     chk.instance("C03/R2", "Evaluated.ranges = Some(f(set)) iff the evaluator returned Ok(set), None iff it returned Err — on every path (%s)" % (
-        {k: [x[1] if isinstance(x, tuple) else x for x in v][:2] for k, v in seen.items() if k in ("Ok", "Err", "other")}), t["def"],
+        {k: [x[1] if isinstance(x, tuple) else x for x in v][:2] for k, v in seen.items() if k in ("Ok", "Err", "Panicked", "other")}), t["def"],
         loc_of(t.get("sp")), holds=bool(ok), key="C03/R2 Candidate::evaluate ranges-chain",
         detail="a defaulting combinator (unwrap_or*, or_else(Ok(..)), Default) would turn a failed evaluation into an empty set")
     chk.instance("C03/R2", "the expression evaluated is the candidate's own filter_expr (and it is kept in the result)", t["def"], loc_of(t.get("sp")),
